@@ -170,3 +170,32 @@ func TestSimAll(t *testing.T) {
 	o := simOpts{Focus: "ALL", MaxN: 7, MaxHeight: 3, MaxSteps: 150, ByzBias: 85}
 	simProperty(t, o, func(w *sim.World) bool { return w.Obs.Commits > 0 })
 }
+
+// C09 (engine S part) — view change carries the lock: monitors on every VIEW_CHANGE / NEW_VIEW a correct node emits.
+func TestC09S(t *testing.T) {
+	o := simOpts{Focus: "C09", MaxN: 7, MaxHeight: 2, MaxSteps: 150, ByzBias: 80,
+		Strategies: []string{"vc", "vc", "vc", "prepare", "pp", "nv", "commit", "replay", "support"}}
+	simProperty(t, o, func(w *sim.World) bool {
+		return w.Mon.Facts["vc-while-prepared"] > 0 || w.Mon.Facts["nv-emitted-with-proof"] > 0
+	})
+}
+
+// C11 — what a correct node emits, correct peers in a matching state accept (judged at every delivery).
+func TestC11(t *testing.T) {
+	o := simOpts{Focus: "C11", MaxN: 7, MaxHeight: 2, MaxSteps: 150, ByzBias: 85,
+		Strategies: []string{"vc", "vc", "vc", "prepare", "prepare", "commit", "pp", "nv", "replay", "support"}}
+	simProperty(t, o, func(w *sim.World) bool { return w.Mon.Facts["c11-judged-after-foreign-input"] > 0 })
+}
+
+// C07 / C08 as monitors on every delivery of engine S (engine N has its own tests).
+func TestC07S(t *testing.T) {
+	o := simOpts{Focus: "C07", MaxN: 7, MaxHeight: 2, MaxSteps: 150, ByzBias: 95,
+		Strategies: []string{"nv", "nv", "nv", "nv", "vc", "pp", "replay", "support", "prepare"}}
+	simProperty(t, o, func(w *sim.World) bool { return w.Mon.Facts["nv-accepted"] > 0 || w.Mon.Facts["nv-emitted"] > 0 })
+}
+
+func TestC08S(t *testing.T) {
+	o := simOpts{Focus: "C08", MaxN: 7, MaxHeight: 2, MaxSteps: 150, ByzBias: 95,
+		Strategies: []string{"prepare", "commit", "vc", "pp", "replay", "replay", "nv", "support"}}
+	simProperty(t, o, func(w *sim.World) bool { return w.Obs.ByzStored > 0 })
+}
